@@ -302,7 +302,7 @@ pub fn run_case_on(i: u64, rng: &mut Rng, rep: &mut Report, opts: MuxOpts, lane:
     }
     let rt = if mt {
         let _ = rng.next();
-        tokio::runtime::Builder::new_multi_thread().worker_threads(2 + rng.usize(3)).enable_time().build().expect("mt runtime")
+        world::Rt::wrap(tokio::runtime::Builder::new_multi_thread().worker_threads(2 + rng.usize(3)).enable_time().build().expect("mt runtime"))
     } else {
         runtime(rng.next())
     };
